@@ -639,6 +639,10 @@ func beginKeyShortcut(s *Scanner) state {
 func stateBeginValue(s *Scanner, c byte) state { //nolint:gocyclo // It's okay.
 	if s.isNewLine(c) {
 		s.found(lexeme.NewLine)
+		if s.annotation == annotationNone {
+			// A closed non-empty array forbids an annotation on its own line only.
+			s.allowAnnotation = true
+		}
 		return scanContinue
 	}
 	if bytes.IsBlank(c) {
